@@ -9,6 +9,7 @@ import (
 	"database/sql"
 	"fmt"
 	"regexp"
+	"sort"
 	"strconv"
 	"strings"
 
@@ -46,14 +47,24 @@ func (i *inspect) columns(ctx context.Context, t *schema.Table) error {
 			return fmt.Errorf("sqlite: %w", err)
 		}
 	}
+	if t.PrimaryKey != nil {
+		// Columns were scanned in their declaration order. Order the
+		// parts of the primary key by their position in the key.
+		sort.SliceStable(t.PrimaryKey.Parts, func(i, j int) bool {
+			return t.PrimaryKey.Parts[i].SeqNo < t.PrimaryKey.Parts[j].SeqNo
+		})
+		for i, p := range t.PrimaryKey.Parts {
+			p.SeqNo = i + 1
+		}
+	}
 	return autoinc(t)
 }
 
 // addColumn scans the current row and adds a new column from it to the table.
 func (i *inspect) addColumn(t *schema.Table, rows *sql.Rows) error {
 	var (
-		nullable, primary   bool
-		hidden              sql.NullInt64
+		nullable            bool
+		primary, hidden     sql.NullInt64
 		name, typ, defaults sql.NullString
 		err                 error
 	)
@@ -82,7 +93,7 @@ func (i *inspect) addColumn(t *schema.Table, rows *sql.Rows) error {
 		}
 	}
 	t.Columns = append(t.Columns, c)
-	if primary {
+	if primary.Int64 > 0 {
 		if t.PrimaryKey == nil {
 			t.SetPrimaryKey(&schema.Index{
 				Name:   "PRIMARY",
@@ -90,10 +101,10 @@ func (i *inspect) addColumn(t *schema.Table, rows *sql.Rows) error {
 				Table:  t,
 			})
 		}
-		// Columns are ordered by the `pk` field.
+		// The `pk` field holds the position of the column in the key.
 		t.PrimaryKey.Parts = append(t.PrimaryKey.Parts, &schema.IndexPart{
 			C:     c,
-			SeqNo: len(t.PrimaryKey.Parts) + 1,
+			SeqNo: int(primary.Int64),
 		})
 	}
 	return nil
@@ -667,7 +678,7 @@ WHERE
 	AND sqlite_master.name NOT LIKE 'libsql\_%' ESCAPE '\'
 `
 	// Query to list table information.
-	columnsQuery = "SELECT `name`, `type`, (not `notnull`) AS `nullable`, `dflt_value`, (`pk` <> 0) AS `pk`, `hidden` FROM pragma_table_xinfo('%s') ORDER BY `cid`"
+	columnsQuery = "SELECT `name`, `type`, (not `notnull`) AS `nullable`, `dflt_value`, `pk`, `hidden` FROM pragma_table_xinfo('%s') ORDER BY `cid`"
 	// Query to list table indexes.
 	indexesQuery = "SELECT `il`.`name`, `il`.`unique`, `il`.`origin`, `il`.`partial`, `m`.`sql` FROM pragma_index_list('%s') AS il JOIN sqlite_master AS m ON il.name = m.name"
 	// Query to list index columns.
